@@ -109,9 +109,18 @@ Definition crash_points (l : log) (o : op) : list nat := seq 0 (S (length (op_pr
 Definition model_kill (segsize : N) (c : cstate) (l : log) (o : op) : list (option log) :=
   map (fun k => recover segsize (image_of Kill (apply_prims c (firstn k (op_prims l o))) (fun _ => (true, []))))
       (crash_points l o).
+(* the files for which it matters whether the header page reached the disk: those whose cached header
+   differs from the durable one (for the others both choices give the same image; enumerating them too
+   made the number of images exponential in the number of segment files) *)
+Definition hdr_dirty_keys (c : cstate) : list N :=
+  map fst (filter (fun p => match dget (fst p) (c_dur c) with
+                            | Some d => negb (f_hdr (snd p) =? f_hdr d)
+                            | None => false
+                            end) (c_mem c)).
+
 Definition model_power (segsize : N) (c : cstate) (l : log) (o : op) : list (option log) :=
   flat_map (fun k => let c' := apply_prims c (firstn k (op_prims l o)) in
-                     map (fun ch => recover segsize (image_of PowerLoss c' ch)) (choices (map fst (c_mem c'))))
+                     map (fun ch => recover segsize (image_of PowerLoss c' ch)) (choices (hdr_dirty_keys c')))
            (crash_points l o).
 
 Inductive lcase :=
